@@ -1022,7 +1022,10 @@ func (c *Ctx) genC11() {
 		for _, ks := range []int{0, 1, 8, 15, 16, 17, 24, 32, 33} {
 			c.xdecrypt(xKey{kind: "b", bytes: c.randBytes(ks)}, []xLayer{{alg: sp(d.uri), cipher: "v", ct: c.randBytes(3 * d.bs)}}, nil, "keysize:"+d.name)
 		}
-		for _, ok := range []interface{}{nil, "a string key", c.key("ec256").Key, 42, c.key("sp").Cert} {
+		type namedBytes []byte
+		for _, ok := range []interface{}{nil, "a string key", c.key("ec256").Key, 42, c.key("sp").Cert,
+			// slices that are not byte slices, a named byte-slice type, arrays, pointers: "keys of the wrong type"
+			[]uint16{1, 2, 3}, []int{}, []string{"k"}, [][]byte{{1, 2}}, []interface{}{1}, namedBytes(c.randBytes(16)), [16]byte{}, &[]byte{1}, map[string]int{}, struct{}{}} {
 			c.xdecrypt(xKey{kind: "o", other: ok}, []xLayer{{alg: sp(d.uri), cipher: "v", ct: c.randBytes(3 * d.bs)}}, nil, "keytype:"+d.name)
 		}
 		c.xdecrypt(xKey{kind: "r", id: 1}, []xLayer{{alg: sp(d.uri), cipher: "v", ct: c.randBytes(3 * d.bs)}}, nil, "keytype:"+d.name)
